@@ -84,6 +84,7 @@ type c16Node struct {
 	conn *grpc.ClientConn
 	ap   *replication.EngineApplier
 	mode string
+	mgrStopped bool
 	// the transaction manager as a component that was wired up before the node took its role
 	// (before replication.Manager.Start made the engine read-only) holds it
 	early interface{}
@@ -158,7 +159,7 @@ func (n *c16Node) stop() {
 	if n.gs != nil {
 		n.gs.Stop()
 	}
-	if n.mgr != nil {
+	if n.mgr != nil && !n.mgrStopped {
 		n.mgr.Stop()
 	}
 	if n.e != nil {
@@ -1307,6 +1308,18 @@ func runC16(c *Case, out func(string)) {
 				fail("C16: the engine is no longer read-only after " + line)
 			}
 			checkData(line)
+		case "stopmgr":
+			// the replication manager is stopped (what a shutdown does first) while the engine and the
+			// client service stay up: the node is still configured as, and reports itself as, what it
+			// was started as - a replica keeps refusing client writes
+			if n.mgr != nil && !n.mgrStopped {
+				withTimeout(10*time.Second, func() { n.mgr.Stop() })
+				n.mgrStopped = true
+			}
+			out("M stopped")
+			if isReplica && !n.e.IsReadOnly() {
+				fail("C16: the engine is no longer read-only after the replication manager was stopped")
+			}
 		case "dump":
 			out("D ro=" + b01(n.e.IsReadOnly()))
 			got, _ := n.scan()
@@ -1576,6 +1589,9 @@ func genC16(w *bufio.Writer, seed int64, n int, tier string) {
 				fmt.Fprintf(w, "g GetNodeInfo\n")
 			case 15:
 				fmt.Fprintf(w, "dump\n")
+				if r.Intn(4) == 0 {
+					fmt.Fprintf(w, "stopmgr\n") // shutdown order: the manager stops, the service still answers
+				}
 			case 16:
 				if len(extraFacade) > 0 {
 					fmt.Fprintf(w, "e %s %s %s\n", extraFacade[r.Intn(len(extraFacade))], key(), c16Val(r))
